@@ -17,10 +17,16 @@ def nspec(ctx: Ctx, prop: str) -> int:
     return t if ctx.thorough else q
 
 
-def disagree(ctx: Ctx, case: Case, what: str, detail: dict, corr: str, prop: str, key=None):
-    ctx.violation("model-impl-disagree", what, dict(case.replay_doc(), **detail, correspondence=corr,
-                  theorems_no_longer_tied=common.load_registry().get(prop, {}).get("theorems", [])),
-                  found_input=False, key=key)
+def disagree(ctx: Ctx, case: Case, what: str, detail: dict, corr: str, prop: str, key=None) -> bool:
+    """Model and implementation differ on this input.  First pass: remember it and stop the sweep (returns
+    True).  Oracle pass (the check re-runs the sweep with the model ignored, looking for an input on
+    which the *property* fails): keep going (returns False)."""
+    if getattr(ctx, "oracle_only", False):
+        ctx.count("disagreements_seen_in_oracle_pass")
+        return False
+    ctx.deferred.append(("model-impl-disagree", what, dict(case.replay_doc(), **detail, correspondence=corr,
+                        theorems_no_longer_tied=common.load_registry().get(prop, {}).get("theorems", [])), key))
+    return True
 
 
 def fails(ctx: Ctx, case: Case, what: str, detail: dict, key=None):
@@ -95,9 +101,9 @@ def run_c02(ctx: Ctx):
                         kw = ci.random_kwargs(rng, valid=True, lossless=False)
                         obj, real_new, model_new = construct_both(ctx, case, cname, kw)
                         if real_new.split()[0] != model_new.split()[0] or (obj is None and real_new != model_new):
-                            disagree(ctx, case, f"{cname}(**{kw!r}): impl `{real_new[:100]}`, model `{model_new[:100]}`",
-                                     {"class": cname, "kwargs": kwargs_line(kw)}, "construct vs generated __init__", "C02")
-                            return
+                            if disagree(ctx, case, f"{cname}(**{kw!r}): impl `{real_new[:100]}`, model `{model_new[:100]}`",
+                                     {"class": cname, "kwargs": kwargs_line(kw)}, "construct vs generated __init__", "C02"):
+                                return
                         if obj is None:
                             # constructible objects are the quantifier; a valid value that cannot be constructed is a finding
                             fails(ctx, case, f"{cname}: valid constructor arguments are rejected: {real_new}",
@@ -106,9 +112,9 @@ def run_c02(ctx: Ctx):
                                 return
                             continue
                         if real_new != model_new:
-                            disagree(ctx, case, f"{cname} constructed object differs: impl `{real_new[:160]}`, model `{model_new[:160]}`",
-                                     {"class": cname, "kwargs": kwargs_line(kw)}, "construct vs generated __init__", "C02")
-                            return
+                            if disagree(ctx, case, f"{cname} constructed object differs: impl `{real_new[:160]}`, model `{model_new[:160]}`",
+                                     {"class": cname, "kwargs": kwargs_line(kw)}, "construct vs generated __init__", "C02"):
+                                return
                         ro = genlib.render(obj)
                         per_class.append((cname, kw))
                         for san in (False, True):
@@ -132,9 +138,9 @@ def run_c02(ctx: Ctx):
                                     if not ctx.known_match(key):
                                         return
                             if classify(real) != classify(model) or (real.startswith("ok") and real != model):
-                                disagree(ctx, case, f"{cname} serialize (sanitising={san}): impl `{real[:120]}`, model `{model[:120]}`",
-                                         {"class": cname, "object": ro, "san": san}, "execSer∘compile vs generated serialize", "C02")
-                                return
+                                if disagree(ctx, case, f"{cname} serialize (sanitising={san}): impl `{real[:120]}`, model `{model[:120]}`",
+                                         {"class": cname, "object": ro, "san": san}, "execSer∘compile vs generated serialize", "C02"):
+                                    return
                     # packets report their declared family and action
                     meta = ctx.driver.ask1(f"gen meta {cname}")
                     pk = meta.split(" packet ")[1]
@@ -144,9 +150,9 @@ def run_c02(ctx: Ctx):
                         rf, ra = cls.family(), cls.action()
                         decl = declared_packet(case.files, cname)
                         if (rf.name, int(rf), ra.name, int(ra)) != (fam, int(fo), act, int(ao)):
-                            disagree(ctx, case, f"{cname}.family()/action() = {rf!r}/{ra!r}, model {pk}", {"class": cname},
-                                     "packet family/action", "C02")
-                            return
+                            if disagree(ctx, case, f"{cname}.family()/action() = {rf!r}/{ra!r}, model {pk}", {"class": cname},
+                                     "packet family/action", "C02"):
+                                return
                         if decl is not None and (_py(decl[0]), _py(decl[1])) != (rf.name, ra.name):
                             fails(ctx, case, f"{cname} was declared with family {decl[0]} action {decl[1]} but reports {rf.name}/{ra.name}",
                                   {"class": cname})
@@ -309,9 +315,9 @@ def run_c03(ctx: Ctx, avoid_known_bugs=True):
                                 if not ctx.known_match(key):
                                     return
                         if real != model:
-                            disagree(ctx, case, f"{cname}.deserialize({common.tohex(data)}, chunked={ch}): impl `{real[:140]}`, model `{model[:140]}`",
-                                     detail, "execDe∘compile vs generated deserialize", "C03")
-                            return
+                            if disagree(ctx, case, f"{cname}.deserialize({common.tohex(data)}, chunked={ch}): impl `{real[:140]}`, model `{model[:140]}`",
+                                     detail, "execDe∘compile vs generated deserialize", "C03"):
+                                return
         finally:
             close_case(case)
     ctx.part("specifications x classes x byte strings (valid, every prefix, mutated, extended, random) x both entry modes", n_in, False,
@@ -360,10 +366,10 @@ def run_c01(ctx: Ctx):
                         return
                     ms, md = ctx.driver.ask([f"gen ser {cname} 0 {ro}", f"gen de {cname} 0 {common.tohex(data)}"])
                     if ms != f"ok {common.tohex(data)} san 0" or md != f"ok {rb} pos {len(data)} chunked 0":
-                        disagree(ctx, case, f"{cname} round trip: model serialize `{ms[:120]}` / deserialize `{md[:160]}`, impl bytes "
+                        if disagree(ctx, case, f"{cname} round trip: model serialize `{ms[:120]}` / deserialize `{md[:160]}`, impl bytes "
                                  f"{common.tohex(data)} / object {rb[:160]}", {"class": cname, "object": ro, "bytes": common.tohex(data)},
-                                 "execSer/execDe∘compile vs generated code (round trip)", "C01")
-                        return
+                                 "execSer/execDe∘compile vs generated code (round trip)", "C01"):
+                            return
         finally:
             close_case(case)
     ctx.part("wire-unambiguous specifications x classes x lossless valid values (serialize, deserialize, compare)", n_obj, False,
@@ -449,9 +455,9 @@ def run_c15(ctx: Ctx):
                             return
                         model = ctx.driver.ask1(f"gen ser {cname} {int(san)} {ro}")
                         if model.split()[-1] != real.split()[-1] or classify(model) != classify(real):
-                            disagree(ctx, case, f"{cname}.serialize (entry mode {san}): impl `{real[:100]}`, model `{model[:100]}`",
-                                     {"class": cname, "object": ro, "san": san}, "mode after execSer vs generated serialize", "C15")
-                            return
+                            if disagree(ctx, case, f"{cname}.serialize (entry mode {san}): impl `{real[:100]}`, model `{model[:100]}`",
+                                     {"class": cname, "object": ro, "san": san}, "mode after execSer vs generated serialize", "C15"):
+                                return
                         # failing writer: raise at the k-th write call
                         for k in (1, 2, 4, 7):
                             w = failing_writer(case.run, k)
@@ -485,9 +491,9 @@ def run_c15(ctx: Ctx):
                                     continue  # huge loop count from a truncated length: the list-based model is quadratic there
                                 model = ctx.driver.ask1(f"gen de {cname} {int(ch)} {common.tohex(data[:cut])}")
                                 if model.split()[-1] != real.split()[-1]:
-                                    disagree(ctx, case, f"{cname}.deserialize (entry mode {ch}): impl `{real[-60:]}`, model `{model[-60:]}`",
-                                             {"class": cname, "bytes": common.tohex(data[:cut]), "chunked": ch}, "mode after execDe", "C15")
-                                    return
+                                    if disagree(ctx, case, f"{cname}.deserialize (entry mode {ch}): impl `{real[-60:]}`, model `{model[-60:]}`",
+                                             {"class": cname, "bytes": common.tohex(data[:cut]), "chunked": ch}, "mode after execDe", "C15"):
+                                        return
                                 for k in (1, 3, 6):
                                     r = failing_reader(case.run, data[:cut], k)
                                     r.chunked_reading_mode = ch
@@ -551,9 +557,9 @@ def run_c16(ctx: Ctx):
                         if not ctx.known_match(key):
                             return
                     if classify(real) != classify(model):
-                        disagree(ctx, case, f"{cname} ({what}): impl `{real[:100]}`, model `{model[:100]}`",
-                                 {"class": cname, "object": ro, "violation": what}, "execSer refusal vs generated serialize", "C16")
-                        return
+                        if disagree(ctx, case, f"{cname} ({what}): impl `{real[:100]}`, model `{model[:100]}`",
+                                 {"class": cname, "object": ro, "violation": what}, "execSer refusal vs generated serialize", "C16"):
+                            return
         finally:
             close_case(case)
     ctx.part("specifications x classes x one declaration-violating change", n, False, f"{n_spec} accepted specifications")
@@ -600,9 +606,9 @@ def run_c19(ctx: Ctx):
                     continue
                 meta = ctx.driver.ask1(f"gen meta {cname}")
                 if not meta.startswith("ok"):
-                    disagree(ctx, case, f"class {cname} exists in the generated code but not in the model ({meta})", {"class": cname},
-                             "class table", "C19")
-                    return
+                    if disagree(ctx, case, f"class {cname} exists in the generated code but not in the model ({meta})", {"class": cname},
+                             "class table", "C19"):
+                        return
                 toks = meta.split()
                 mfields = [] if toks[2] == "params" else toks[2].split(",")
                 getters = toks[toks.index("getters") + 1].split(",")
@@ -613,9 +619,9 @@ def run_c19(ctx: Ctx):
                 real_setters = sorted(k for k, v in real_props.items() if v.fset is not None or v.fdel is not None)
                 ann = [k[1:] for k in cls.__annotations__ if k != "_byte_size"]
                 if ann != [f.split(":")[0] for f in mfields] or sorted(real_props) != sorted(getters) or real_setters != sorted(msetters):
-                    disagree(ctx, case, f"{cname}: members differ: impl fields {ann} properties {sorted(real_props)} setters {real_setters}; "
-                             f"model {meta}", {"class": cname}, "ClassIR members vs generated class", "C19")
-                    return
+                    if disagree(ctx, case, f"{cname}: members differ: impl fields {ann} properties {sorted(real_props)} setters {real_setters}; "
+                             f"model {meta}", {"class": cname}, "ClassIR members vs generated class", "C19"):
+                        return
                 n += 1
             for cname in case.info.classes():
                 cls = case.run.get_class(cname)
@@ -731,9 +737,9 @@ def run_c17(ctx: Ctx):
                     if not ctx.known_match(key):
                         return
                 if real_rejects != model.startswith("err"):
-                    disagree(ctx, ed, f"edit {rule}@{placement}: real generator {'rejects: ' + repr(ed.run.error) if real_rejects else 'accepts'}, "
-                             f"model `{model[:120]}`", {"rule": rule, "placement": placement}, "compile error vs ProtocolCodeGenerator raising", "C17")
-                    return
+                    if disagree(ctx, ed, f"edit {rule}@{placement}: real generator {'rejects: ' + repr(ed.run.error) if real_rejects else 'accepts'}, "
+                             f"model `{model[:120]}`", {"rule": rule, "placement": placement}, "compile error vs ProtocolCodeGenerator raising", "C17"):
+                        return
             finally:
                 close_case(ed)
     ctx.part("valid specifications x rule-violating edits x placements", n, False, f"{n_spec} base specifications")
@@ -743,3 +749,152 @@ RULES["C17"] = ("valid catalogue and random specifications x one rule-violating 
                 "chunk, optional, dummy, hard-coded value, enum, switch, packet, file-level rules) inserted at the start of an eligible body "
                 "per placement class (top level, inside <chunked>, inside a switch case, inside a case within a chunked section, first/second "
                 "file); observed: the real generator raises vs returns; compared with compile. distinct = (rule, placement)")
+
+
+# ============================================================================================
+# C18 — deterministic generation, importable package
+# ============================================================================================
+
+ALL_DIRS = ["", "net", "net/client", "net/server", "map", "pub", "pub/server"]
+
+
+def complete_tree(files):
+    """every documented directory gets a protocol.xml (an empty <protocol/> where the spec has none)"""
+    have = {d for d, _ in files}
+    files = list(files) + [(d, genlib.Xml("protocol")) for d in ALL_DIRS if d not in have]
+    # the static package (eolib.protocol.net.packet) needs the PacketFamily / PacketAction enums in net
+    names = {e.get("name") for _, r in files for e in r.children if e.tag == "enum"}
+    extra = [genlib.Xml("enum", [("name", n), ("type", "char")], None, None, [genlib.Xml("value", [("name", "Connection")], "1")])
+             for n in ("PacketFamily", "PacketAction") if n not in names]
+    if extra:
+        files = [(d, r.replace(children=list(r.children) + extra) if d == "net" else r) for d, r in files]
+    return files
+
+
+def declared_types(files):
+    """[(class name, directory, kind)] for every enum, struct and packet"""
+    out = []
+    for d, root in files:
+        for e in root.children:
+            if e.tag in ("enum", "struct"):
+                out.append((e.get("name"), d, e.tag))
+            elif e.tag == "packet":
+                out.append((e.get("family") + e.get("action") + {"net/client": "ClientPacket", "net/server": "ServerPacket"}[d], d, "packet"))
+    return out
+
+
+def parse_generated(rel: str, data: bytes):
+    text = data.decode("utf-8")
+    imports = [l for l in text.split("\n") if l.startswith("from ") and " import " in l]
+    import re
+    classes = re.findall(r"^class (\w+)", text, re.M)
+    return imports, classes
+
+
+def run_c18(ctx: Ctx):
+    import json as _json
+    import os
+    import shutil
+    import subprocess
+    import sys
+    import tempfile
+    rng = ctx.rng
+    repo = os.environ.get("VERIF_REPO", "/repo")
+    here = os.path.dirname(os.path.abspath(__file__))
+    n_runs = n_spec = n_names = 0
+    nsp = int(os.environ.get("VERIF_NSPEC", 0)) or (60 if ctx.thorough else 6)
+    for idx, case in enumerate(gencheck.spec_stream(ctx, nsp, avoid_known_bugs=True)):
+        if not ctx.thorough and case.flags.get("catalogue") and idx % 3 != 0:
+            continue
+        case.files = complete_tree(case.files)
+        try:
+            st = open_case(ctx, case, "C18", load=False)
+            if st is False:
+                return
+            if st is None:
+                # a valid tree must be accepted
+                fails(ctx, case, f"valid specification tree {case.tag} is rejected: {case.run.error!r}", {})
+                return
+            n_spec += 1
+            ref = {rel: __import__("hashlib").sha256(data).hexdigest() for rel, data in case.run.file_tree.items()}
+            # --- the model's file list / class names / import sections
+            mfiles = ctx.driver.ask1("gen files")
+            model = {}
+            for ent in mfiles[3:].split(" | "):
+                head, _, imps = ent.partition(" ; ")
+                path, kind, names = head.split(" ")[:3] if len(head.split(" ")) >= 3 else (head.split(" ") + ["", ""])[:3]
+                model[path] = (kind, names, [i for i in imps.split(";;") if i])
+            real = {rel: parse_generated(rel, data) for rel, data in case.run.file_tree.items()}
+            if sorted(model) != sorted(real):
+                if disagree(ctx, case, f"generated files differ: impl {sorted(real)}, model {sorted(model)}", {}, "GenOutput.files vs file tree", "C18"):
+                    return
+            for rel in sorted(real):
+                imps, classes = real[rel]
+                kind, names, mimps = model[rel]
+                if imps != mimps or (kind != "init" and classes[:1] != names.split(",")[:1]):
+                    if disagree(ctx, case, f"{rel}: impl imports {imps} classes {classes[:1]}; model imports {mimps} names {names}", {"file": rel},
+                             "GenFile imports/class vs emitted file", "C18"):
+                        return
+            # --- determinism under configurations, in subprocesses
+            configs = []
+            seeds = ["0", "1", "random"] + (["2", "12345"] if ctx.thorough else [])
+            for hs in seeds:
+                for ws in ["-", str(rng.randrange(10 ** 6))] + ([str(rng.randrange(10 ** 6))] if ctx.thorough else []):
+                    configs.append((hs, ws, rng.choice(["fresh,again", "fresh,same,again", "failfirst,again", "fresh,fresh"])))
+            scratch = tempfile.mkdtemp(prefix="c18-", dir="/var/tmp")
+            try:
+                procs = []
+                for k, (hs, ws, plan) in enumerate(configs):
+                    env = dict(os.environ, PYTHONHASHSEED=hs)
+                    procs.append((hs, ws, plan, subprocess.Popen(
+                        [sys.executable, os.path.join(here, "genworker.py"), repo, case.run.input, os.path.join(scratch, f"c{k}"), ws, plan],
+                        stdout=subprocess.PIPE, stderr=subprocess.PIPE, text=True, env=env)))
+                for hs, ws, plan, p in procs:
+                    out, err = p.communicate(timeout=120)
+                    n_runs += 1
+                    ctx.sig(("config", hs if hs != "random" else "r", ws != "-", plan))
+                    if p.returncode != 0:
+                        raise common.CheckAbort(f"genworker failed: {err[-500:]}")
+                    res = _json.loads(out)
+                    for run in res["runs"]:
+                        if run["error"] is not None or run["tree"] != ref:
+                            diff = sorted(set(run["tree"].items()) ^ set(ref.items()))[:4]
+                            fails(ctx, case, f"generation is not reproducible: PYTHONHASHSEED={hs} walk-order-seed={ws} plan={plan} step={run['step']}: "
+                                  f"error={run['error']} differing files={[d[0] for d in diff]}", {"config": [hs, ws, plan]})
+                            return
+                # --- importability in a fresh interpreter: every declared type from the top level and from its home subpackage
+                types = declared_types(case.files)
+                names = [[n, "eolib.protocol" + ("." + d.replace("/", ".") if d else "")] for n, d, _ in types]
+                firsts = ["-", "eolib.protocol.net.client", "eolib.data"] if ctx.thorough else ["-", rng.choice(["eolib.protocol.net", "eolib.packet"])]
+                for first in firsts:
+                    p = subprocess.run([sys.executable, os.path.join(here, "importworker.py"), case.run.src, first, _json.dumps(names)],
+                                       capture_output=True, text=True, timeout=120)
+                    if p.returncode != 0:
+                        raise common.CheckAbort(f"importworker failed: {p.stderr[-500:]}")
+                    res = _json.loads(p.stdout)
+                    if res["error"]:
+                        fails(ctx, case, f"the generated package cannot be imported in a fresh interpreter (first import {first}): {res['error']}",
+                              {"first_import": first, "traceback": res.get("traceback")}, key="import:" + res["error"].split(":")[0])
+                        if not ctx.known_match("import:" + res["error"].split(":")[0]):
+                            return
+                        continue
+                    for n, info in res["names"].items():
+                        n_names += 1
+                        if not (info["top_is_class"] and info["home_is_class"] and info["same"]):
+                            fails(ctx, case, f"declared type {n} is not exported as one class from the top-level package and its home subpackage "
+                                  f"(first import {first}): {info}", {"name": n, "first_import": first})
+                            return
+            finally:
+                shutil.rmtree(scratch, ignore_errors=True)
+        finally:
+            close_case(case)
+    ctx.part("complete specification trees x (hash seeds x walk orders x repeat plans) in subprocesses; import in fresh interpreters", n_runs, False,
+             f"{n_spec} trees, {n_names} exported names checked")
+
+
+RULES["C18"] = ("complete multi-file specification trees (all seven directories, cross-file references): the real generator in subprocesses under "
+                "PYTHONHASHSEED in {0,1,random,...}, with os.walk permuted by a seeded shuffle of directories and files, repeated on a fresh "
+                "generator, on the same generator object, into a pre-populated output directory and after a deliberately failing run; every "
+                "resulting tree compared byte for byte (sha256 per file) with the in-process reference; a fresh interpreter imports eolib and every "
+                "declared enum/struct/packet from the top-level package and its home subpackage; file list, class names and import sections "
+                "compared with the model's GenOutput.files. distinct = (hash seed, walk permuted?, plan)")
